@@ -21,7 +21,8 @@ RULE = ('Hypothesis-generated SimNet programs: worlds over {byte-stream, message
         'object in which the previous connection ended half way through a fragmented request or channel element. Plus last '
         'words: an endpoint issues 1-4 fire-and-forget / metadata-push requests and closes at once, so that the bytes and the '
         'end of the stream reach the peer together: every fire-and-forget written before close() reaches the handler once. Plus real endpoints joined through the '
-        'repository\'s websocket transports (3 client-side x 4 server-side kinds, the websocket an in-memory pair): 1-8 '
+        'repository\'s websocket transports (3 client-side x 4 server-side kinds, the websocket an in-memory pair) or through '
+        'its QUIC transport (stand-in QuicConnection delivering the stream in chunks of generated sizes): 1-8 '
         'request-response / fire-and-forget / metadata-push / stream requests of 0-400 bytes, sequential or concurrent, '
         'fragmentation off or 64 / 80, answers computed from the requests. Oracle (reference model = the program): for every interaction the sequence of payloads '
         'observed at the peer callback equals the sequence handed in, byte for byte, exactly once, nothing foreign '
@@ -280,9 +281,14 @@ def glue_cases(draw):
         st.tuples(st.just('mp'), st.integers(1, 60), st.just(0)),
         st.tuples(st.just('st'), st.integers(0, 6), st.integers(0, 60)),
     )
-    return {'glue': True, 'client': draw(st.sampled_from(G.CLIENT_GLUES)), 'server': draw(st.sampled_from(G.SERVER_GLUES)),
+    case = {'glue': True, 'client': draw(st.sampled_from(G.CLIENT_GLUES)), 'server': draw(st.sampled_from(G.SERVER_GLUES)),
             'frag': draw(st.sampled_from([None, 64, 64, 80])), 'concurrent': draw(st.booleans()),
             'reqs': [list(r) for r in draw(st.lists(req, min_size=1, max_size=8))]}
+    if draw(st.integers(0, 4)) == 0:
+        # the QUIC transport (byte framing): both ends, stream data delivered in chunks of generated sizes
+        case['client'] = case['server'] = 'aioquic'
+        case['cuts'] = draw(st.one_of(st.none(), st.lists(st.integers(1, 40), min_size=1, max_size=5)))
+    return case
 
 
 _glue_stuck = []  # once a case has looped for its whole wall-clock allowance the following ones get a short one
